@@ -7,7 +7,7 @@ package messages
 // values, so every rejection rule below is proved for every possible decoded message.
 // The package keeps no mutable package-level state: activations (two decoders, two requests) cannot influence each
 // other through it.
-//@ stateless package [C12]
+//@ stateless package [C12,C02]
 //
 //@ default model int
 //@ default strings smtlib
